@@ -103,7 +103,7 @@ def main():
         # the checks
         res["checks"] = {}
         for p in props:
-            e = dict(os.environ, VERIF_REPO=wt)
+            e = dict(os.environ, VERIF_REPO=wt, VERIF_EVID=os.path.join(wt, ".verif-evidence"))
             rcc, outc = sh(["python3", os.path.join(VERIF, "tools", "check.py"), "run", p, "--tier", "quick"], cwd=VERIF, env=e, timeout=3000)
             lines = [l for l in outc.split("\n") if l.startswith("VIOLATION") or l.startswith("KNOWN-FINDING") or l.startswith(p + ":")]
             res["checks"][p] = {"exit": rcc, "lines": [l[:300] for l in lines]}
